@@ -53,7 +53,8 @@ ASSUMPTIONS = [
     "receiver (left operand) and may be merged IN at any later place (it "
     "contributes no observation: what a combined result set holds for a "
     "parameter combination that was simulated in none of its sources)",
-    "for MISC results only 'value == last observation' is asserted",
+    "for MISC results 'value == last observation' is asserted, and with "
+    "value accumulation on also the list of accumulated values",
     "for CHOICE results mean/variance are only required to be the same in the "
     "grouped and the single object (no reference value)",
     "general-float statistics are compared with rel. tolerance 1e-12 on the "
@@ -296,9 +297,12 @@ def _combine_case(draw, tier):
     # a third result set, combined as (a+b)+c or a+(b+c)
     third = draw(st.sampled_from([None, None, "left", "right"]))
     c_obs = [draw(rep) for _ in range(nc)] if third else []
+    # value accumulation may have been switched on for some of the sets only
+    acc_sides = draw(st.one_of(st.none(), st.none(), st.lists(
+        st.booleans(), min_size=3, max_size=3)))
     return dict(part="combine", results=specs, unpacked=unpacked,
                 fixed=fixed, a_obs=a_obs, b_obs=b_obs, c_obs=c_obs,
-                third=third)
+                third=third, acc_sides=acc_sides)
 
 
 @st.composite
@@ -431,6 +435,14 @@ def _check_result(ctx, r, ref, exact, acc, stage, tags, single=None):
         if ref.n and (type(got) is not type(ref.value) or got != ref.value):
             raise Violation("misc_last_wins", pre + "value %r, last "
                             "observation %r" % (got, ref.value), tags)
+        if acc:
+            # with value accumulation on, every observation is kept, however
+            # the observations were grouped
+            want_v = [v for v, _ in ref.obs]
+            got_l = r.to_dict()["value_list"]
+            if [_plain(x) for x in got_l] != [_plain(x) for x in want_v]:
+                raise Violation("value_list", pre + "accumulated values %r, "
+                                "observations %r" % (got_l, want_v), tags)
         return
     d = r.to_dict()
     if d["num_updates"] != ref.n or isinstance(d["num_updates"], bool):
@@ -828,8 +840,11 @@ def _build_side(SimulationParameters, SimulationResults, Result, case, which,
     assert len(combos) == len(obs)
     for reps in obs:
         for j, sp in enumerate(specs):
+            acc = bool(sp["acc"])
+            if case.get("acc_sides"):
+                acc = bool(case["acc_sides"]["abc".index(which)])
             s.append_result(_new_result(
-                Result, sp["name"], sp["type"], bool(sp["acc"]),
+                Result, sp["name"], sp["type"], acc,
                 sp["choice_num"], [r[j] for r in reps], False))
     return s, combos
 
@@ -845,6 +860,8 @@ def _check_combine_part(case, ctx):
     sides = ["a", "b"] + (["c"] if third else [])
     if third:
         ctx.label("combine:three_sets_" + third)
+    if case.get("acc_sides") and len(set(case["acc_sides"][:len(sides)])) > 1:
+        ctx.label("combine:accumulation_differs_between_sets")
     for u in case["unpacked"]:
         if u.get("kind") in ("mixed", "str"):
             ctx.label("combine:values_" + u["kind"])
